@@ -239,7 +239,7 @@ def run(ctx):
         ins = common.dedup(common.corpus_inputs() + common.random_scripts(seed, 1500 if tier == 'quick' else 20000, mutate=1, unsupported=0))
         if ctx.get('replay'): ins = [json.load(open(ctx['replay']))['input']]
         # (here-documents are read by the tokenizer from the text; the token-level engine has none)
-        streams = [x for x in real_streams(bl, [s for s in ins if '<<' not in s]) if x[1] in ('ACC', 'BLANK', 'REJ') and all(n in tid for n in x[2])]
+        streams = [x for x in real_streams(bl, [s for s in ins if '<<' not in s]) if x[1] in ('ACC', 'BLANK', 'REJ') and all(n in tid for n in x[2]) and not any(n.startswith('LESS_LESS') for n in x[2] if n != 'LESS_LESS_LESS')]
         rl = ['lr\ttop\t%s' % '.'.join(str(tid[n]) for n in names) for _, _, names in streams]
         rr = []
         for k in range(0, len(rl), 20000): rr += runner.model_batch(rl[k:k + 20000])
